@@ -6,7 +6,17 @@ ASSUMPTIONS = ["referents in the assignment query are harness metatypes that cou
 
 def queries(tier):
     k = 4 if tier == "quick" else 6
+    ck = 4 if tier == "quick" else 6
     return [
+        # reply context lifetime: the C12 history harness (heap ledger: use after release, double release, leak)
+        Q("reply_context_history", "C12/ctx.c", units=["mptcore/event/reply_deferrable.c", "mptcore/event/reply_set.c",
+                                                        "mptcore/message/message_id.c", "mptcore/misc/refcount.c"],
+          harness_defines={"K": ck}, unwind_default=ck + 2, unwind={"mpt_message_buf2id": 10, "mpt_message_id2buf": 10},
+          fp=[(r"reply\.send", ["h_send"]), (r"convertable\.convert", ["contextConv"]), (r"_vptr\)\.unref", ["contextUnref"]),
+              (r"_vptr\)\.addref", ["contextRef"]), (r"_vptr\)\.defer", ["contextDefer"]), (r"_vptr\)\.reply", ["contextSet", "deferReply"])],
+          flags=["--memory-leak-check"],
+          bounds="reply context: histories of %d operations over {arm, reply, defer, deferred reply, release}; transport verdict symbolic" % ck,
+          outside="see C12"),
         Q("refcount_kernel", "C15/refcount.c", units=["mptcore/misc/refcount.c"], unwind_default=2,
           bounds="counter: all 2^64 values; raise or lower", outside="-"),
         Q("metaref_assign", "C15/metaref.c", units=["mptcore/convert/data_converter.c", "mptcore/convert/data_convert_int.c", "mptcore/convert/data_convert_float.c", "mptcore/convert/data_convert_array.c", "mptcore/types/type_int.c", "mptcore/types/type_traits.c", "mptcore/misc/identifier.c", "mptcore/array/array_traits.c", "mptcore/meta/meta_reference_traits.c", "mptcore/event/command_traits.c", "mptcore/array/array_clone.c"], unwind_default=2,
